@@ -2,7 +2,9 @@ package config
 
 import (
 	"fmt"
+	"math"
 	"os"
+	"time"
 
 	"gopkg.in/yaml.v3"
 )
@@ -207,6 +209,68 @@ func (c *Config) Validate() error {
 	}
 	if err := c.validateLogging(); err != nil {
 		return err
+	}
+	if err := c.validateRanges(); err != nil {
+		return err
+	}
+	return nil
+}
+
+// maxSeconds is the largest number of seconds a time.Duration can hold.
+const maxSeconds = math.MaxInt64 / int64(time.Second)
+
+// validateRanges rejects values that pass the checks above but do not survive the conversions
+// applied to them later: every *_seconds / timeout value is multiplied into a time.Duration and
+// the circuit breaker keeps its counts as uint32. Beyond those ranges the value would silently
+// wrap (a negative ejection window, a breaker whose trial budget is smaller than configured).
+func (c *Config) validateRanges() error {
+	type bounded struct {
+		name  string
+		value int
+	}
+	seconds := []bounded{
+		{"server read timeout", c.Server.Timeouts.Read},
+		{"server write timeout", c.Server.Timeouts.Write},
+		{"server idle timeout", c.Server.Timeouts.Idle},
+		{"server handler timeout", c.Server.Timeouts.Handler},
+		{"server shutdown timeout", c.Server.Timeouts.Shutdown},
+		{"backend dial timeout", c.Server.Timeouts.BackendDial},
+		{"backend read timeout", c.Server.Timeouts.BackendRead},
+		{"backend idle timeout", c.Server.Timeouts.BackendIdle},
+	}
+	var counts []bounded
+	if c.LoadBalancer.WebSocketPool.Enabled {
+		seconds = append(seconds, bounded{"websocket pool idle_timeout_seconds", c.LoadBalancer.WebSocketPool.IdleTimeoutSeconds})
+	}
+	if c.HealthChecks.Active.Enabled {
+		seconds = append(seconds,
+			bounded{"active health check interval", c.HealthChecks.Active.Interval},
+			bounded{"active health check timeout", c.HealthChecks.Active.Timeout})
+	}
+	if c.HealthChecks.Passive.Enabled {
+		seconds = append(seconds, bounded{"passive health check unhealthy timeout", c.HealthChecks.Passive.UnhealthyTimeout})
+	}
+	if c.RateLimit.Enabled {
+		seconds = append(seconds, bounded{"rate limit refill rate", c.RateLimit.RefillRate})
+	}
+	if c.CircuitBreaker.Enabled {
+		seconds = append(seconds,
+			bounded{"circuit breaker interval", c.CircuitBreaker.IntervalSeconds},
+			bounded{"circuit breaker timeout", c.CircuitBreaker.TimeoutSeconds})
+		counts = append(counts,
+			bounded{"circuit breaker max requests", c.CircuitBreaker.MaxRequests},
+			bounded{"circuit breaker failure threshold", c.CircuitBreaker.FailureThreshold},
+			bounded{"circuit breaker success threshold", c.CircuitBreaker.SuccessThreshold})
+	}
+	for _, s := range seconds {
+		if int64(s.value) > maxSeconds {
+			return fmt.Errorf("%s is too large (got %d seconds, at most %d)", s.name, s.value, maxSeconds)
+		}
+	}
+	for _, n := range counts {
+		if int64(n.value) > math.MaxUint32 {
+			return fmt.Errorf("%s is too large (got %d, at most %d)", n.name, n.value, uint32(math.MaxUint32))
+		}
 	}
 	return nil
 }
